@@ -63,7 +63,7 @@ def hdrOf (env : Env) (line : Bytes) : Hdr :=
 inductive Phase where
   | waitHeader                                  -- no complete header line yet, still within the bound
   | body (st : Nat) (m : Bytes) (b : Bytes)     -- 2x header parsed; `b` = body so far, within the cap
-  | closedPending (st : Nat) (m : Bytes)        -- valid non-2x header: closed, response delivered at loss
+  | closedPending (st : Nat) (m : Bytes)        -- valid non-2x header: response delivered (at header time), closed
   | closedErr (k : String)                      -- error set and transport closed
   | crashed                                     -- header line not UTF-8: exception escaped `data_received`
 deriving Repr, DecidableEq
@@ -102,7 +102,7 @@ def finish (env : Env) (dt : Bool) (p : Phase) (exc : Bool) : Fut :=
       | 2 => .error "charset"
       | _ => .error "codec"
     else .response st m (some b) false
-  | .closedPending st m => if exc then .error "connection" else .response st m none false
+  | .closedPending st m => .response st m none false      -- already delivered: the teardown cannot change it
   | .closedErr k => .error k
   | .crashed => .error "headerUtf8"
 
@@ -116,7 +116,7 @@ def Matches (s : CSt) : Phase → Prop
   | .waitHeader => s.headerReceived = false ∧ s.status = none ∧ s.fut = .pending ∧ s.closeReq = false ∧ s.crashed = false
   | .body st m b => s.buf = b ∧ s.headerReceived = true ∧ s.status = some st ∧ s.mta = m ∧ s.fut = .pending ∧
       s.closeReq = false ∧ s.crashed = false
-  | .closedPending st m => s.headerReceived = true ∧ s.status = some st ∧ s.mta = m ∧ s.fut = .pending ∧
+  | .closedPending st m => s.headerReceived = true ∧ s.status = some st ∧ s.mta = m ∧ s.fut = .response st m none false ∧
       s.closeReq = true ∧ s.crashed = false
   | .closedErr k => s.fut = .error k ∧ s.closeReq = true ∧ s.crashed = false
   | .crashed => s.fut = .error "headerUtf8" ∧ s.crashed = true ∧ s.closeReq = false
@@ -211,7 +211,7 @@ theorem header_step (env : Env) (dt : Bool) (s : CSt) (c : Bytes)
                 unfold Rel; rw [hph]
                 simp only [parseHeader, hp, hbad, Bool.false_eq_true, hrange, and_self, ↓reduceIte, afterHeader]
                 rw [if_neg h2x]
-                simp [Matches]
+                simp [Matches, deliverHeader]
             · have hph : phaseOf env (buf ++ c) = .closedErr "statusRange" := by
                 rw [hph0]; unfold phaseAt; rw [if_neg hi]
                 simp only [hdrOf, hu, hp, ↓reduceIte, hbad, Bool.false_eq_true]
@@ -222,7 +222,7 @@ theorem header_step (env : Env) (dt : Bool) (s : CSt) (c : Bytes)
               rw [if_neg hrange]
               simp only [setError, ↓reduceIte, afterHeader]
               rw [if_neg h2x]
-              simp [Matches]
+              simp [Matches, deliverHeader]
       · rw [if_neg hu]
         have hph : phaseOf env (buf ++ c) = .crashed := by
           rw [hph0]; unfold phaseAt; rw [if_neg hi]; simp [hdrOf, hu]
@@ -509,6 +509,7 @@ theorem run_spec (env : Env) (dt : Bool) (reads : List Bytes) (exc : Bool) :
 
 /-- the future while the connection is still up -/
 def Phase.fut : Phase → Fut
+  | .closedPending st m => .response st m none false
   | .closedErr k => .error k
   | .crashed => .error "headerUtf8"
   | _ => .pending
@@ -588,7 +589,8 @@ def Faithful (env : Env) (dt : Bool) (T : Bytes) (st : Nat) (m : Bytes) (b : Opt
     (¬ (20 ≤ st ∧ st < 30) → b = none ∧ d = false)
 
 theorem finish_response (env : Env) (dt : Bool) (T : Bytes) (exc : Bool) (st : Nat) (m : Bytes) (b : Option Bytes) (d : Bool)
-    (h : finish env dt (phaseOf env T) exc = .response st m b d) : exc = false ∧ Faithful env dt T st m b d := by
+    (h : finish env dt (phaseOf env T) exc = .response st m b d) :
+    (exc = false ∨ ¬ (20 ≤ st ∧ st < 30)) ∧ Faithful env dt T st m b d := by
   cases hp : phaseOf env T with
   | waitHeader => rw [hp] at h; simp only [finish] at h; split at h <;> cases h
   | closedErr k => rw [hp] at h; cases h
@@ -596,14 +598,11 @@ theorem finish_response (env : Env) (dt : Bool) (T : Bytes) (exc : Bool) (st : N
   | closedPending st' m' =>
     rw [hp] at h
     simp only [finish] at h
-    split at h
-    · cases h
-    · rename_i he
-      injection h with e1 e2 e3 e4
-      subst e1 e2 e3 e4
-      obtain ⟨i, hf, hi, hh, hn⟩ := phaseOf_closedPending_inv env T _ _ hp
-      obtain ⟨g1, g2, g2b, g3, g4⟩ := hdrOf_ok env _ _ _ hh
-      refine ⟨by simpa using he, i, hf, hi, g1, g2, g2b, g4, g3, fun h2 => absurd h2 hn, fun _ => ⟨rfl, rfl⟩⟩
+    injection h with e1 e2 e3 e4
+    subst e1 e2 e3 e4
+    obtain ⟨i, hf, hi, hh, hn⟩ := phaseOf_closedPending_inv env T _ _ hp
+    obtain ⟨g1, g2, g2b, g3, g4⟩ := hdrOf_ok env _ _ _ hh
+    refine ⟨Or.inr hn, i, hf, hi, g1, g2, g2b, g4, g3, fun h2 => absurd h2 hn, fun _ => ⟨rfl, rfl⟩⟩
   | body st' m' b' =>
     rw [hp] at h
     obtain ⟨i, hf, hi, hh, h2x, hb, hlen⟩ := phaseOf_body_inv env T _ _ _ hp
@@ -618,7 +617,7 @@ theorem finish_response (env : Env) (dt : Bool) (T : Bytes) (exc : Bool) (st : N
         · rename_i hd
           injection h with e1 e2 e3 e4
           subst e1 e2 e3 e4
-          refine ⟨by simpa using he, i, hf, hi, g1, g2, g2b, g4, g3, fun _ => ?_, fun hn => absurd h2x hn⟩
+          refine ⟨Or.inl (by simpa using he), i, hf, hi, g1, g2, g2b, g4, g3, fun _ => ?_, fun hn => absurd h2x hn⟩
           subst hb
           exact ⟨rfl, hlen, ⟨fun _ => ht, fun _ => rfl⟩, fun _ => hd⟩
         · cases h
@@ -627,7 +626,7 @@ theorem finish_response (env : Env) (dt : Bool) (T : Bytes) (exc : Bool) (st : N
       · rename_i ht
         injection h with e1 e2 e3 e4
         subst e1 e2 e3 e4
-        refine ⟨by simpa using he, i, hf, hi, g1, g2, g2b, g4, g3, fun _ => ?_, fun hn => absurd h2x hn⟩
+        refine ⟨Or.inl (by simpa using he), i, hf, hi, g1, g2, g2b, g4, g3, fun _ => ?_, fun hn => absurd h2x hn⟩
         subst hb
         exact ⟨rfl, hlen, ⟨fun hx => (by cases hx), fun hx => absurd hx ht⟩, fun hx => (by cases hx)⟩
 
@@ -648,11 +647,67 @@ theorem phase_tooLong (env : Env) (T : Bytes)
 /-- invariant along ANY event list: a response, once there, is well-formed -/
 def GoodFut (f : Fut) : Prop := ∀ st m b d, f = .response st m b d → (10 ≤ st ∧ st < 70) ∧ (b ≠ none ↔ (20 ≤ st ∧ st < 30))
 
+theorem goodFut_of_noResp (f : Fut) (h : NoResp f) : GoodFut f := by
+  intro st m b d hf
+  rcases h with h | ⟨k, h⟩ <;> rw [h] at hf <;> cases hf
+
+theorem afterHeader_good (q : CSt) (hq : StatusInv q) (hn : NoResp q.fut) : GoodFut (afterHeader q).fut := by
+  intro st m b d hf
+  obtain ⟨h1, _, h3, _⟩ := afterHeader_respOk q hn st m b d hf
+  rw [afterHeader_status] at h1
+  rcases hn with hn | ⟨k, hn⟩
+  · exact ⟨hq st h1 hn, h3⟩
+  · rw [afterHeader_keep q (by simp [hn]), hn] at hf; cases hf
+
+theorem onData_good (env : Env) (s : CSt) (c : Bytes) (hi : Inv s) (hp : s.fut = .pending) : GoodFut (onData env s c).fut := by
+  have hn : NoResp s.fut := Or.inl hp
+  unfold onData
+  split
+  · exact goodFut_of_noResp _ hn
+  · split
+    · exact goodFut_of_noResp _ (capCheck_noResp _ hn)
+    · rename_i hnr
+      have hsn : s.status = none := hi.2 (by simpa using hnr)
+      split
+      · split
+        · exact goodFut_of_noResp _ (setError_noResp _ _ hn)
+        · exact goodFut_of_noResp _ (capCheck_noResp _ hn)
+      · split
+        · exact goodFut_of_noResp _ (setError_noResp _ _ hn)
+        · unfold onHeader
+          split
+          · refine afterHeader_good _ ?_ (parseHeader_noResp _ _ hn)
+            exact parseHeader_inv { s with buf := s.buf ++ c } _ hsn
+          · exact goodFut_of_noResp _ (setError_noResp _ _ hn)
+
+theorem onLost_status (env : Env) (s : CSt) (e : Bool) : (onLost env s e).status = s.status := by
+  unfold onLost
+  split
+  · rfl
+  · simp only
+    unfold resolve
+    split
+    · rfl
+    · split
+      · rfl
+      · split
+        · rfl
+        · split
+          · unfold deliver; split
+            · split <;> rfl
+            · rfl
+          · rfl
+
 theorem cstep_good (env : Env) (s : CSt) (ev : CEv) (hi : Inv s) (hg : GoodFut s.fut) : GoodFut (cstep env s ev).fut := by
   by_cases hp : s.fut = .pending
-  · intro st m b d h
-    obtain ⟨h1, _, h3, _⟩ := response_origin env s ev hp st m b d h
-    exact ⟨hi.1 st h1 hp, h3⟩
+  · cases ev with
+    | data c => exact onData_good env s c hi hp
+    | lost e =>
+      intro st m b d h
+      obtain ⟨h1, _, h3, _⟩ := response_origin env s (.lost e) hp st m b d h
+      simp only [cstep] at h1
+      rw [onLost_status] at h1
+      exact ⟨hi.1 st h1 hp, h3⟩
   · rw [fut_stable env s ev hp]; exact hg
 
 theorem run_good (env : Env) (s : CSt) (evs : List CEv) (hi : Inv s) (hg : GoodFut s.fut) : GoodFut (crunFrom env s evs).fut := by
